@@ -139,6 +139,21 @@ def install_symmetry(ctx):
         in unparse(rz.node)
     ctx.ob(R, 'BasePath.realize|destdir-prefix', ok, rz.node,
            'DESTDIR is not prepended to destdir paths')
+    # no result that contains the root is returned before the DESTDIR block
+    from ..cfg import build as build_cfg
+    g = build_cfg(rz.node)
+    dd = [n for n in walk_no_nested(rz.node) if isinstance(n, ast.If) and
+          unparse(n.test) == 'self.destdir and DestDir.destdir in variables']
+    if dd:
+        for r in Q.returns(rz.node):
+            if r.value is not None and any(
+                    isinstance(x, ast.Name) and x.id == 'root'
+                    for x in ast.walk(r.value)):
+                ctx.ob(R, 'BasePath.realize|destdir-before|' + unparse(
+                    r.value)[:50], g.dominates(dd[0], r), r,
+                    'a path that includes its root can be returned before '
+                    'DESTDIR is prepended: a staged install writes outside '
+                    '$(DESTDIR)')
     # siblings
     mi = repo.func(I + 'make_install_rule')
     ni = repo.func(I + 'ninja_install_rule')
